@@ -253,6 +253,8 @@ inline std::vector<SvcEntry> buildSvcTable()
         a->setModel(nullptr);
         chk(s, a, "annotator", "setModel(null)", false);
         s.expect(!a->hasModel() && a->model() == nullptr, "setModel(null) left the annotator with a model");
+        s.expect(a->ids().empty() && a->duplicateIds().empty() && a->itemCount("gid_main") == 0 && emptyItem(a->item("gid_main")),
+                 "after setModel(null) the annotator still answers from the model it had: ids() has " + str(a->ids().size()) + " entries, itemCount('gid_main') = " + str(a->itemCount("gid_main")));
         bool r = a->assignAllIds();
         chk(s, a, "annotator", "assignAllIds() without model", true);
         s.expect(!r, "assignAllIds() returned true without a model");
@@ -267,9 +269,11 @@ inline std::vector<SvcEntry> buildSvcTable()
     add("Annotator.clearAllIds#model", mN, 0, [=](Svc &s) {
         auto a = mkAnnotator(s);
         ModelPtr m;
+        auto before = a->model();
         a->clearAllIds(m);
         chk(s, a, "annotator", "clearAllIds(null model)", false);
         s.expect(a->issueCount() > 0, "clearAllIds(null model) raised no issue");
+        s.expect(s.dropped || a->model() == before, "clearAllIds(null model) made the annotator forget the model it works with");
     });
     add("Annotator.assignId#item", mN | mM, 0, [=](Svc &s) {
         auto a = mkAnnotator(s);
@@ -860,6 +864,75 @@ inline std::vector<SvcEntry> buildSvcTable()
             auto lm = l.importer->library(i);
             s.expect((lm != nullptr) == (i < l.importer->libraryCount()), "library(index) null-ness disagrees with libraryCount()");
             l.importer->library(l.importer->key(i));
+        }
+    });
+    // the importer's list of import sources: add / remove by pointer / remove by index act on exactly that object
+    recv("Live.Importer.importSources", K_IMP, 0, [=](Svc &s) {
+        auto &l = *s.live;
+        if (l.importer == nullptr) {
+            l.importer = Importer::create();
+        }
+        auto src = std::dynamic_pointer_cast<ImportSource>(s.recv);
+        auto listed = [&]() {
+            std::vector<ImportSourcePtr> v;
+            for (size_t i = 0; i < l.importer->importSourceCount(); ++i) {
+                v.push_back(l.importer->importSource(i));
+            }
+            return v;
+        };
+        auto before = listed();
+        bool present = std::find(before.begin(), before.end(), src) != before.end();
+        switch (s.variant % 5) {
+        case 0: {
+            bool r = l.importer->addImportSource(src);
+            auto after = listed();
+            auto want = before;
+            if (!present) {
+                want.push_back(src);
+            }
+            s.expect(r == !present && after == want, "addImportSource() returned " + str(r) + " for an import source that was " + (present ? "already" : "not yet") + " listed; the list has " + str(after.size()) + " entries, expected " + str(want.size()));
+            break;
+        }
+        case 1: {
+            auto twin = src->clone(); // equal to src, another object
+            bool r = l.importer->addImportSource(twin);
+            s.expect(r && l.importer->importSourceCount() == before.size() + 1, "addImportSource(a copy of a listed import source) was refused");
+            break;
+        }
+        case 2: {
+            bool r = l.importer->removeImportSource(src);
+            auto after = listed();
+            if (present) {
+                auto want = before;
+                want.erase(std::find(want.begin(), want.end(), src));
+                s.expect(r && after == want, "removeImportSource(listed import source) did not remove exactly that object");
+            } else {
+                s.expect(after.size() + (r ? 1 : 0) == before.size(), "removeImportSource(unlisted import source) returned " + str(r) + " but the list went from " + str(before.size()) + " to " + str(after.size()) + " entries");
+            }
+            break;
+        }
+        case 3:
+            if (!before.empty()) {
+                // a copy of a listed import source is appended and then removed again by its index: the list is as before
+                size_t i = size_t(s.variant / 5) % before.size();
+                if (l.importer->addImportSource(before[i]->clone())) {
+                    bool r = l.importer->removeImportSource(before.size());
+                    s.expect(r && listed() == before, "removeImportSource(index of a look-alike appended last) did not remove exactly the import source at that index");
+                }
+                before = listed();
+                i = size_t(s.variant / 5) % before.size();
+                bool r = l.importer->removeImportSource(i);
+                auto after = listed();
+                auto want = before;
+                want.erase(want.begin() + long(i));
+                s.expect(r && after == want, "removeImportSource(index " + str(i) + ") did not remove exactly the import source at that index");
+            }
+            break;
+        default:
+            s.expect(l.importer->hasImportSource(src) || !present, "hasImportSource() is false for a listed import source");
+            for (size_t i = 0; i <= before.size(); ++i) {
+                s.expect((l.importer->importSource(i) != nullptr) == (i < before.size()), "importSource(index) null-ness disagrees with importSourceCount()");
+            }
         }
     });
     recv("Live.Importer.flattenModel", K_MODEL, 0, [=](Svc &s) {
